@@ -133,7 +133,8 @@ find_alg(jose_cfg_t *cfg, json_t *jwe, json_t *rcp, const json_t *hdr,
     const char *name = NULL;
     json_t *h = NULL;
 
-    if (json_unpack((json_t *) hdr, "{s:s}", "alg", &name) >= 0)
+    name = json_string_value(json_object_get(hdr, "alg"));
+    if (name)
         return jose_hook_alg_find(JOSE_HOOK_ALG_KIND_WRAP, name);
 
     for (alg = jose_hook_alg_list(); alg && !name; alg = alg->next) {
